@@ -190,6 +190,17 @@ func OwnLayers(n *gen.Node) []Layer {
 		out = []Layer{harnessL("gen.NCLeaf")}
 	case "isleaf":
 		out = []Layer{harnessL("*gen.IsLeaf")}
+	case "hdleaf", "hdwrap":
+		l := harnessL("*gen.HDLeaf")
+		if n.Kind == "hdwrap" {
+			l = harnessL("*gen.HDWrap")
+		}
+		l.Hint, l.HasHint, l.Detail, l.HasDetail = S[1], true, S[2], true
+		out = []Layer{l}
+	case "ncwrap":
+		out = []Layer{harnessL("gen.NCWrap")}
+	case "domainnone":
+		out = []Layer{domainL("error domain: <none>")}
 	case "asleaf":
 		out = []Layer{harnessL("*gen.AsLeaf")}
 	case "stacksafeleaf":
@@ -302,7 +313,7 @@ func OwnLayers(n *gen.Node) []Layer {
 		out = []Layer{harnessL("*gen.FmtrWrap")}
 	case "elidewrap":
 		out = []Layer{harnessL("*gen.ElideWrap")}
-	case "handled", "handledmsg", "handledmsgf", "opaque":
+	case "handled", "handledmsg", "handledmsgf", "handledmsgf0", "opaque":
 		out = []Layer{barrierErr}
 	case "handleddomain", "handleddommsg":
 		out = []Layer{domainL(named(S[0])), barrierErr}
@@ -379,7 +390,7 @@ func Text(n *gen.Node) string {
 		return gen.RuntimeErrors[n.N[0]].Error()
 	case "errorf":
 		return S[1] + " " + S[0] + " " + S[2]
-	case "newf0":
+	case "newf0", "handledmsgf0":
 		return S[0] + " 100%"
 	case "wrapf0", "withmsgf0":
 		return S[0] + " 100%: " + k(0)
@@ -390,7 +401,7 @@ func Text(n *gen.Node) string {
 	case "newfew":
 		return S[0] + " " + h(0) + " " + S[1] + " " + k(0)
 	case "goerr", "new", "pkgnew", "nofmtleaf", "fmtleaf", "unimpl", "domnew", "gstatus",
-		"oldfmtleaf", "fmtrleaf", "ncleaf", "isleaf", "lowleaf", "asleaf", "stacksafeleaf", "elidewrap", "handledmsg", "unimpld":
+		"oldfmtleaf", "fmtrleaf", "ncleaf", "isleaf", "hdleaf", "lowleaf", "asleaf", "stacksafeleaf", "elidewrap", "handledmsg", "unimpld":
 		return S[0]
 	case "newf":
 		return S[1] + " " + S[0] + " " + S[2]
@@ -407,7 +418,7 @@ func Text(n *gen.Node) string {
 	case "wrap", "withmsg", "gstatuswrap":
 		return pfx(S[0])
 	case "pkgmsg", "nofmtwrap", "aswrap", "fmtwrap", "goerrorf", "pkgwrap", "causewrap", "oldfmtwrap", "fmtrwrap",
-		"lowwrap", "syscallerr":
+		"lowwrap", "syscallerr", "hdwrap", "ncwrap":
 		return S[0] + ": " + k(0)
 	case "wrapf", "withmsgf":
 		return S[0] + " " + S[1] + ": " + k(0)
@@ -415,7 +426,7 @@ func Text(n *gen.Node) string {
 		return "safe " + S[0] + ": " + k(0)
 	case "withstack", "hint", "detail", "safedetails", "telemetry", "domain", "issuelink", "tags", "tagsafe",
 		"assertion", "mark", "secondary", "http", "grpc", "pkgstack", "emptywrap", "wrapempty",
-		"hintf", "detailf", "telemetry0", "combine", "issuelinkd", "issuelinku":
+		"hintf", "detailf", "telemetry0", "combine", "issuelinkd", "issuelinku", "domainnone":
 		return k(0)
 	case "newfw":
 		return S[0] + " " + k(0) + " " + S[1]
